@@ -4,33 +4,33 @@ namespace Spydr.Names
 macro "ns_tac2" : tactic => `(tactic| (constructor <;> grind [List.nodup_append, nodup_filter']))
 
 set_option maxHeartbeats 1000000 in
-theorem setKey_name_nsinv (s : N) (e v) (h : NsInv s) : NsInv (step s (.setKey e .name v)).1 := by
+theorem setKey_name_nsinv (s : N) (e v) (h : NsInv s) : NsInv (stepCore s (.setKey e .name v)).1 := by
   have U3 := names_unique' h
   obtain ⟨h1,h2,h3,h4,h5⟩ := h
-  simp only [step, N.nameOk, N.tblUpdate, N.noConflict, Rec.get, Rec.set, validName, reduceCtorEq, false_and, and_false, if_false, true_and, if_true]
+  simp only [stepCore, N.nameOk, N.tblUpdate, N.noConflict, Rec.get, Rec.set, validName, reduceCtorEq, false_and, and_false, if_false, true_and, if_true]
   repeat' split
   all_goals first
     | exact ⟨h1,h2,h3,h4,h5⟩
     | ns_tac2
 
 set_option maxHeartbeats 1000000 in
-theorem setKey_ident_nsinv (s : N) (e v) (h : NsInv s) : NsInv (step s (.setKey e .ident v)).1 := by
+theorem setKey_ident_nsinv (s : N) (e v) (h : NsInv s) : NsInv (stepCore s (.setKey e .ident v)).1 := by
   have U4 := idents_unique' h
   obtain ⟨h1,h2,h3,h4,h5⟩ := h
-  simp only [step, N.nameOk, N.tblUpdate, N.noConflict, Rec.get, Rec.set, reduceCtorEq, false_and, and_false, if_false, true_and, and_true]
+  simp only [stepCore, N.nameOk, N.tblUpdate, N.noConflict, Rec.get, Rec.set, reduceCtorEq, false_and, and_false, if_false, true_and, and_true]
   repeat' split
   all_goals first
     | exact ⟨h1,h2,h3,h4,h5⟩
     | ns_tac2
 
-theorem setKey_nsinv (s : N) (e k v) (h : NsInv s) : NsInv (step s (.setKey e k v)).1 := by
+theorem setKey_nsinv (s : N) (e k v) (h : NsInv s) : NsInv (stepCore s (.setKey e k v)).1 := by
   cases k
   · exact setKey_name_nsinv s e v h
   · exact setKey_ident_nsinv s e v h
 
-theorem create_nsinv (s : N) (e) (h : NsInv s) : NsInv (step s (.create e)).1 := by
+theorem create_nsinv (s : N) (e) (h : NsInv s) : NsInv (stepCore s (.create e)).1 := by
   obtain ⟨h1,h2,h3,h4,h5⟩ := h
-  simp only [step]
+  simp only [stepCore]
   split
   · exact ⟨h1,h2,h3,h4,h5⟩
   · rename_i hg
@@ -54,8 +54,8 @@ theorem register_nsinv (s : N) (p c : El) (h : NsInv s) (hc : s.parent c = none)
 /-- attach when the child already carries the parent's policy (no `.NS` adoption needed) -/
 theorem attach_same_policy_nsinv (s : N) (p c : El) (pp : Policy) (h : NsInv s)
     (hp : (s.info p).ns = some pp) (hc : (s.info c).ns = some pp) :
-    NsInv (step s (.attach p c)).1 := by
-  simp only [step]
+    NsInv (stepCore s (.attach p c)).1 := by
+  simp only [stepCore]
   split
   · exact h
   · split
